@@ -25,7 +25,8 @@ EXPLANATION = (
     " Subclasses of the S3 backend / range reader are held to their parent's rules (R2/R3/R4/R7 iterate the class family)."
     " (R8) every operation reaches its primitive on every normal path and both listings keep every entry; (R9) key mapping round trip by scenario evaluation (_get_s3_key vs the listing's prefix strip)."
     " (R10) the S3 listing walks every page; (R11) ages derived from LastModified use UTC-aware clocks; (R12) S3FileStream.read is a faithful pipe (no handler turns an error into a short read); (R13) every PUT body is a bytes value. R3's retry loop is decided by simulating retry_with_backoff on 'every attempt fails' for max_retries = 1 and 2 (for/while, 0- or 1-based counters, helpers analysed in place); R6 accepts any arithmetic shape of the guard / clamp whose linear form implies pos < size and last <= size - 1; function values are followed through partial / lambda / factory returns / later-added per-key methods."
-    ' (R14) a retried operation is restartable: the function handed to with_s3_retry mutates nothing it captured.')
+    ' (R14) a retried operation is restartable: the function handed to with_s3_retry mutates nothing it captured.'
+    " (R15) an S3 operation answers with what the store said: exists() -> True exactly after a successful HEAD, read-type results derive from the response, seek dispatch by scenario. R2: the re-raise sits on the non-404 side; R3: the retry layer returns the operation's result; R6: strict `pos >= size` guard; R11 is interprocedural; R1 tolerates trailing optional parameters.")
 NOT_DECIDED = "operation-sequence equivalence of the two backends at run time; S3's own consistency"
 
 SB = "storage_backend"
@@ -107,7 +108,9 @@ def r8_work(ctx: Ctx, rid: str = "C20.R8") -> None:
                     if host is None:
                         continue
                     inner = [fr.node for fr in host.frames if fr.kind == "loop"][-1]
-                    lp = next(n for n in g.nodes if n.kind == "loop" and n.ast is inner)
+                    lp = next((n for n in g.nodes if n.kind == "loop" and n.ast is inner), None)
+                    if lp is None:
+                        continue  # a `while` loop yielding pages, not listed entries
                     body = edge_target(g, lp, "true")
                     w = find_path(g, body, [lp.id], avoid=[host.id], labels=NORMAL) if body is not None and body != host.id else None
                     n_keep += 1
@@ -325,13 +328,51 @@ def r11_utc_ages(ctx: Ctx, rid: str = "C20.R11") -> None:
              "replace(tzinfo=None) / a naive datetime.now() (on a host east of UTC every marker and every lock then looks hours "
              "old: live markers are 'abandoned', live locks are 'expired')", 3)
     n_uses = 0
+    # parameters that receive a LastModified value at some package call site (`_lock_age_seconds(resp['LastModified'])`)
+    seeds: Dict[str, Set[str]] = {}
+    for _round in range(3):
+        grew = False
+        for f in ctx.prog.functions.values():
+            if isinstance(f.node, ast.Lambda):
+                continue
+            carry = set(seeds.get(f.qname, set()))
+            has_const = any(isinstance(c, ast.Constant) and c.value == "LastModified" for c in ast.walk(f.node))
+            if not has_const and not carry:
+                continue
+            again = True
+            while again:
+                again = False
+                for x in ast.walk(f.node):
+                    if isinstance(x, ast.Assign) and any((isinstance(y, ast.Constant) and y.value == "LastModified") or (isinstance(y, ast.Name) and y.id in carry)
+                                                         for y in ast.walk(x.value)):
+                        for t in x.targets:
+                            for nm in [y for y in ast.walk(t) if isinstance(y, ast.Name)]:
+                                if nm.id not in carry:
+                                    carry.add(nm.id)
+                                    again = True
+            for c in [x for x in ast.walk(f.node) if isinstance(x, ast.Call)]:
+                cal = ctx.prog.resolve_call(c, f)
+                if cal is None or cal.kind != "func":
+                    continue
+                for t in cal.funcs:
+                    pos = [p_ for p_ in t.params if p_.kind == "pos"]
+                    if t.cls is not None and not t.is_static and pos and isinstance(c.func, ast.Attribute):
+                        pos = pos[1:]
+                    for i, a in enumerate(c.args):
+                        if i < len(pos) and any((isinstance(y, ast.Constant) and y.value == "LastModified") or (isinstance(y, ast.Name) and y.id in carry)
+                                                for y in ast.walk(a)):
+                            if pos[i].name not in seeds.setdefault(t.qname, set()):
+                                seeds[t.qname].add(pos[i].name)
+                                grew = True
+        if not grew:
+            break
     for f in sorted(ctx.prog.functions.values(), key=lambda x: x.qname):
         if isinstance(f.node, ast.Lambda):
             continue
-        if not any(isinstance(c, ast.Constant) and c.value == "LastModified" for c in ast.walk(f.node)):
+        if not any(isinstance(c, ast.Constant) and c.value == "LastModified" for c in ast.walk(f.node)) and not seeds.get(f.qname):
             continue
         # variables carrying the LastModified value (transitively through plain assignments)
-        lm: Set[str] = set()
+        lm: Set[str] = set(seeds.get(f.qname, set()))
 
         def mentions(e: ast.AST) -> bool:
             return any((isinstance(x, ast.Constant) and x.value == "LastModified") or (isinstance(x, ast.Name) and x.id in lm) for x in ast.walk(e))
@@ -1144,6 +1185,11 @@ def r5(ctx: Ctx, rid: str = "C20.R5") -> None:
     if not uses:
         any_list = next(((nf, c) for nf in scopes for c in ctx.cfg(nf).calls()
                          if c.callee and (c.callee.name.startswith("boto.list_objects") or c.callee.name.split(".")[-1] == "paginate")), None)
+        if any_list is None and any(isinstance(x, ast.Call) and isinstance(x.func, ast.Attribute) and x.func.attr in ("list_objects_v2", "list_objects", "paginate")
+                                    for x in ast.walk(lf.node)):
+            # the request sits in a lambda / generator nested deeper (a per-page retry): anchor the obligation at the method
+            first = next(iter(ctx.cfg(lf).calls()), None)
+            any_list = (lf, first) if first is not None else None
         for d in [x for x in ast.walk(lf.node) if isinstance(x, ast.Dict)]:
             for k, v in zip(d.keys, d.values):
                 if isinstance(k, ast.Constant) and k.value == "Prefix" and any_list is not None:
